@@ -68,4 +68,12 @@ def filterE {α ε : Type} (p : α → Except ε Bool) : List α → Except ε (
 
 def sumInt (l : List Int) : Int := l.foldr (· + ·) 0
 
+/-- `[f(x) for x in l]` where `f` may raise: the first exception wins -/
+def mapE {α β ε : Type} (f : α → Except ε β) : List α → Except ε (List β)
+  | [] => pure []
+  | x :: xs => do
+    let y ← f x
+    let ys ← mapE f xs
+    pure (y :: ys)
+
 end Gnpy.Py
